@@ -153,7 +153,7 @@ def stump_add_refines_statement (H : Type) [DecidableEq H] [Hasher H] : Prop :=
 def stump_update_refines_statement (H : Type) [DecidableEq H] [Hasher H] : Prop :=
   ∀ (nonZero : H) (F : Forest H) (s : Stump H) (dels adds : List H) (targets : List Pos)
     (proof : List H),
-    CR H → nonZero ≠ (zero : H) →
+    NZ H → nonZero ≠ (zero : H) →
     s.roots = F.roots → s.numLeaves = BitVec.ofNat 64 F.numLeaves →
     F.numLeaves + adds.length ≤ 2 ^ 63 →
     F.liveLeaves.Nodup → (∀ x ∈ F.liveLeaves, x ≠ (zero : H) ∧ ∀ a b : H, x ≠ ph a b) →
@@ -188,17 +188,17 @@ theorem numLeaves_addMany (G : Forest H) (adds : List H) :
 `Props/C01.lean`), from the add refinement proved there -/
 theorem stump_update_refines_of_add (hadd : stump_add_refines_statement H) :
     stump_update_refines_statement H := by
-  intro nonZero F s dels adds targets proof cr _ hr hn hlt hnd hlive hadds hdn _ hc
+  intro nonZero F s dels adds targets proof nz _ hr hn hlt hnd hlive hadds hdn _ hc
   have hs : s = stumpOf F := by
     cases s
     simp only at hr hn
     subst hr hn
     rfl
   subst hs
-  have ok : ForestOK F := ⟨by omega, cr.nonzero, fun l hl => (hlive l hl).1, hnd⟩
+  have ok : ForestOK F := ⟨by omega, nz.nonzero, fun l hl => (hlive l hl).1, hnd⟩
   have haddAt : AddRefinesAt nonZero (F.delLeaves dels) adds := by
     obtain ⟨upd, td, h⟩ := hadd nonZero (F.delLeaves dels) (stumpOf (F.delLeaves dels)) adds
-      cr.nonzero rfl rfl (by rw [delLeaves_numLeaves]; omega)
+      nz.nonzero rfl rfl (by rw [delLeaves_numLeaves]; omega)
       (fun y hy => (hlive y (liveLeaves_delLeaves F dels y hy)).1) hadds
     refine ⟨_, h, ?_⟩
     simp only [stumpOf, numLeaves_addMany]
